@@ -1375,21 +1375,29 @@ evbuffer_remove_buffer(struct evbuffer *src, struct evbuffer *dst,
 
 	/* we know that there is more data in the src buffer than
 	 * we want to read, so we manually drain the chain */
-	if (evbuffer_add(dst, chain->buffer + chain->misalign, datlen) == 0) {
+	/* Make room in dst first (so that the copy below cannot fail), then
+	 * take the bytes out of src *before* handing them to dst:
+	 * evbuffer_add() runs dst's callbacks, and those may come back to src
+	 * (stacked bufferevent filters do), which must not still count bytes
+	 * that have already been copied. */
+	if (evbuffer_expand(dst, datlen) == 0) {
+		unsigned char *tail = chain->buffer + chain->misalign;
 		chain->misalign += datlen;
 		chain->off -= datlen;
 		nread += datlen;
+		src->total_len -= nread;
+		src->n_del_for_cb += nread;
+		/* You might think we would want to increment dst->n_add_for_cb
+		 * here too.  But evbuffer_add already takes care of that. */
+		evbuffer_add(dst, tail, datlen);
 	} else if (nread == 0) {
 		/* nothing was moved at all */
 		result = -1;
 		goto done;
+	} else {
+		src->total_len -= nread;
+		src->n_del_for_cb += nread;
 	}
-
-	/* You might think we would want to increment dst->n_add_for_cb
-	 * here too.  But evbuffer_add above already took care of that.
-	 */
-	src->total_len -= nread;
-	src->n_del_for_cb += nread;
 
 	if (nread) {
 		evbuffer_invoke_callbacks_(dst);
